@@ -1065,6 +1065,9 @@ static void SwitchTo_6805(void) {
     SwitchFrom     = SwitchFrom_6805;
     InitFields();
     AddMoto16PseudoONOFF();
+
+    /* the default of this target, not what the previous one left behind */
+    SetFlag(&DoPadding, DoPaddingName, False);
 }
 
 void code6805_init(void) {
